@@ -25,7 +25,7 @@ import (
 )
 
 func TestMain(m *testing.M) {
-	vlib.Rule("C25: per case a fresh directory on a real `weed filer` child (-maxMB=1; one filer with -saveToFilerLimit=0, one with 64) and a history of 1-6 operations on 1-2 file names: PUT / multipart POST (?maxMB absent,1,2) with body sizes {0,1,63,64,65,1MiB-1,1MiB,1MiB+1,2MiB,3MiB+7,random}, ?op=append, aborted bodies (raw TCP: Content-Length N or chunked encoding, write side closed after k<N bytes, k around chunk borders), and files pre-created over gRPC. Oracle: byte-array model per name; after every operation GET (whole + random ranges) must equal the model; an aborted body must not be answered 2xx and must leave the previous content / 404. Non-trivial = history with a body spanning >=2 chunks, or an append, or an aborted body.")
+	vlib.Rule("C25: per case a fresh directory on a real `weed filer` child (-maxMB=1; one filer with -saveToFilerLimit=0, one with 64) and a history of 1-6 operations on 1-2 file names: PUT / multipart POST (?maxMB absent,1,2) with body sizes {0,1,63,64,65,1MiB-1,1MiB,1MiB+1,2MiB,3MiB+7,random}, ?op=append, aborted bodies (raw TCP: Content-Length N or chunked encoding, write side closed after k<N bytes, k around chunk borders), and files pre-created over gRPC. Oracle: byte-array model per name; after every operation GET (whole + random ranges) must equal the model; an aborted body must not be answered 2xx and must leave the previous content / 404. Non-trivial = history with a body spanning >=2 chunks, or an append, or an aborted body. Volume-side faults (separate cluster with 7 volumes): a generated subset of the volumes the master still offers is marked read-only on the volume server, files of 1-3 chunks are written through the filer before a heartbeat reports it; a request answered 2xx must read back completely whatever retries its chunks took, a failed one must leave nothing; non-trivial there = at least one chunk upload was refused.")
 	vlib.Assume("master + one volume server + two filer child processes per shard process; the weed binary is built from /repo's working tree")
 	vlib.Main(m)
 }
